@@ -8,6 +8,7 @@ import Uquic.Proofs.PN
 import Uquic.Proofs.PNGen
 import Uquic.Proofs.KeyPhase
 import Uquic.Proofs.Packet
+import Uquic.Proofs.KeyPhaseSys
 import Uquic.Model.Crypto.RfcConst
 import Uquic.Generated.Handshake
 
@@ -368,6 +369,41 @@ example : (run exEnv exOps).a.keyPhase = 1 ∧ (run exEnv exOps).a.numRcvdWithCu
     (run exEnv (exOps ++ [.seal 3])).a.keyPhase = 2 := by decide
 
 end KeyUpdate
+
+/-! ## 4b. two endpoints and an adversarial network (system: Uquic/Spec/KeyPhaseSys.lean) -/
+
+section Lockstep
+open Uquic.Model.KeyPhase Uquic.Spec.KeyPhaseSys Uquic.Proofs.KeyPhaseSys
+
+/-- `generation_lockstep`: for ALL interleavings of sends (with local key updates), deliveries in any
+    order, any number of times, arbitrarily late or never, injected unauthentic packets, ACKs (the peer
+    acknowledges only what it opened), confirmations and key-phase queries at two endpoints:
+    the endpoints' key generations never differ by more than one, and every packet ever sealed is of a
+    generation at most one ahead of its receiver — so `Open` only ever needs the previous, current or next
+    key (`key_open_complete` then says when it succeeds), however many key updates happen. -/
+theorem generation_lockstep (e : Env) (s : Sys) (h : Reach e s) :
+    s.a.ka.keyPhase ≤ s.b.ka.keyPhase + 1 ∧ s.b.ka.keyPhase ≤ s.a.ka.keyPhase + 1 ∧
+    (∀ q ∈ s.a.sent, q.1 ≤ s.b.ka.keyPhase + 1) ∧ (∀ q ∈ s.b.sent, q.1 ≤ s.a.ka.keyPhase + 1) := by
+  obtain ⟨ia, ib⟩ := reach_inv e s h
+  refine ⟨ia.lock, ib.lock, fun q hq => ?_, fun q hq => ?_⟩
+  · have := (ia.sentOk q hq).1; have := ia.lock; omega
+  · have := (ib.sentOk q hq).1; have := ib.lock; omega
+
+/-- what the peer successfully opened was really sealed by us, in a generation the peer has reached; and
+    packet numbers in flight are bounded by the last one sealed (no number is invented) -/
+theorem opened_were_sealed (e : Env) (s : Sys) (h : Reach e s) :
+    (∀ q ∈ s.b.opened, q ∈ s.a.sent ∧ q.1 ≤ s.b.ka.keyPhase) ∧ (∀ q ∈ s.a.opened, q ∈ s.b.sent ∧ q.1 ≤ s.a.ka.keyPhase) ∧
+    (∀ q ∈ s.a.sent, q.2 ≤ s.a.last) ∧ (∀ q ∈ s.b.sent, q.2 ≤ s.b.last) := by
+  obtain ⟨ia, ib⟩ := reach_inv e s h
+  exact ⟨ia.openedOk, ib.openedOk, fun q hq => (ia.sentOk q hq).2.1, fun q hq => (ib.sentOk q hq).2.1⟩
+
+-- a non-trivial reachable state: A confirmed, sent twice, updated its keys; B received the new generation
+example : Reach exEnv
+    { a := Act.apply exEnv (Act.apply exEnv (Act.apply exEnv {} .confirm) (.sealPkt 0)) (.sealPkt 1), b := {} } :=
+  Reach.stepA _ (.sealPkt 1) (Reach.stepA _ (.sealPkt 0) (Reach.stepA _ .confirm Reach.init trivial) (by simp [Act.ok, Act.apply])) (by simp [Act.ok, Act.apply])
+example : (Act.apply exEnv (Act.apply exEnv (Act.apply exEnv {} .confirm) (.sealPkt 0)) (.sealPkt 1)).ka.keyPhase = 1 := by decide
+
+end Lockstep
 
 /-! ## 5. byte-level packet protection (model: Uquic/Model/Crypto/Packet.lean) -/
 
